@@ -229,7 +229,10 @@ def install_callbacks(e):
         if isinstance(app, Ref) and c.hasf(app, "keep_running"):
             app_closed_by_callback(c, app)
     e.add(Contract("ext:callback.__call__", assumed=True, havoc=cb_havoc,
-                   raises=[(Exception, None, None), (KeyboardInterrupt, None, None), (SystemExit, None, None)],
+                   # "any Exception subclass" is represented by Exception itself and by the subclasses the library's own handlers
+                   # single out: one of the library's exceptions (e.g. from a send() made inside the callback) and OSError
+                   raises=[(Exception, None, None), (X.WebSocketConnectionClosedException, None, None), (OSError, None, None),
+                           (KeyboardInterrupt, None, None), (SystemExit, None, None)],
                    doc="user callback: appends its invocation to the raw log; may raise any Exception subclass, KeyboardInterrupt or "
                        "SystemExit; may call app.close() (keep_running' = False, app.sock' = None)"))
 
